@@ -112,6 +112,92 @@ def classify(name, files, asis_predicts, out_a, out_b):
     return "order-dependent-messages:%s" % name
 
 
+def config_sets(v, work, stats, rng, tier):
+    cases = []
+    r = C.run_tlc(work, "MCConfigSets", "ConfigSets.cfg", workers=2, timeout=900,
+                  stream=lambda l: cases.append(json.loads(json.loads(l))))
+    if not r.ok:
+        raise C.HarnessError("MCConfigSets failed: %s" % r.violation)
+    stats["states"] += r.distinct
+    stats["transitions"] += r.generated
+    cases.sort(key=lambda c: json.dumps(c, sort_keys=True))
+    if tier == "quick":
+        split = [c for c in cases if c["split"]]
+        cases = rng.sample(split, 220) + rng.sample([c for c in cases if not c["split"]], 80)
+    jobs, meta = [], []
+    for ci, c in enumerate(cases):
+        files = [{"cls": f["cls"], "ext": ["P"] if f["ext"] else [], "methods": sorted((d["name"], d["sig"]) for d in f["methods"])}
+                 for f in sorted(c["files"], key=lambda f: json.dumps(f, sort_keys=True))]
+        prog = probe_program(files)
+        for order in itertools.permutations(range(len(files))):
+            cfg = write_config(work, files, order, "set%d-%s" % (ci, "".join(map(str, order))))
+            jobs.append({"cfg": cfg, "files": {"t.rb": prog}, "args": ["t.rb"]})
+            meta.append((ci, files, order))
+    wr = C.Runner(work, "worker")
+    try:
+        results = wr.run_many(jobs)
+    finally:
+        wr.close()
+    by = {}
+    for (ci, files, order), job, res in zip(meta, jobs, results):
+        if res.hung or res.crashed or res.get("exit") != 0:
+            raise C.HarnessError("probe program failed under generated configuration %d %s: %s" % (ci, order, res.get("cls")))
+        by.setdefault(ci, []).append((order, res["out"], job, files))
+    compared = 0
+    for ci, runs in by.items():
+        c = cases[ci]
+        ref_order, ref_out, ref_job, files = runs[0]
+        shape = "%s%d-files" % ("split-child/" if c["split"] else "", len(files))
+        # (1) against the reference resolution, in every order
+        names = sorted({n for f in files for n, s_ in f["methods"]})
+        classes = sorted({f["cls"] for f in files})
+        for order, out, job, _ in runs:
+            rows = rows_of(out)
+            row = len(classes)
+            for cl in classes:
+                for n in names:
+                    for a in "ISF":
+                        row += 1
+                        compared += 1
+                        msgs = rows.get(row, [])
+                        err = any("type mismatch" in m or "not defined" in m or "arguments" in m for m in msgs)
+                        want_ok = a in c["res"][cl][n]
+                        if want_ok != (not err):
+                            key = "resolution:%s:%s" % (shape, "inherited" if (cl == "C" and not any(f["cls"] == "C" and any(x == n for x, _s in f["methods"]) for f in files)) else "own")
+                            if v.seen(key):
+                                v.again(key)
+                                continue
+                            b = C.confirm_alone(work, {"cfg": job["cfg"], "files": job["files"], "args": ["t.rb"]}, runs=1)[0]
+                            msgs2 = rows_of(b.get("out") or "").get(row, [])
+                            err2 = any("type mismatch" in m or "not defined" in m or "arguments" in m for m in msgs2)
+                            if want_ok == (not err2):
+                                v.count("not_reproduced_blackbox")
+                                continue
+                            v.fail(key, "configuration %s loaded in file order %s: o%s.%s(%s) %s, the declarations resolve to %s" % (
+                                json.dumps(files), order, cl.lower(), n, LITS[a], "is rejected: %r" % msgs2[:1] if err2 else "is accepted",
+                                c["res"][cl][n]), C.job_files_for_replay({"cfg": job["cfg"], "files": job["files"], "args": ["t.rb"]}))
+        # (2) every order prints the same
+        for order, out, job, _ in runs[1:]:
+            compared += 1
+            if out == ref_out:
+                continue
+            key = classify("generated:" + shape, files, False, ref_out, out)
+            if v.seen(key):
+                v.again(key)
+                continue
+            a = C.confirm_alone(work, {"cfg": ref_job["cfg"], "files": ref_job["files"], "args": ["t.rb"]}, runs=1)[0]
+            b = C.confirm_alone(work, {"cfg": job["cfg"], "files": job["files"], "args": ["t.rb"]}, runs=1)[0]
+            if a.get("out") == b.get("out"):
+                v.count("not_reproduced_blackbox")
+                continue
+            la, lb = a["out"].split("\n"), b["out"].split("\n")
+            diff = [(x, y) for x, y in zip(la, lb) if x != y][:3]
+            fl = C.job_files_for_replay({"cfg": job["cfg"], "files": job["files"], "args": ["t.rb"]})
+            fl["other-order/CONFIG"] = ref_job["cfg"]
+            v.fail(key, "configuration %s: file order %s and %s give different output: %r" % (json.dumps(files), ref_order, order, diff), fl)
+    return compared
+
+
 def run(tier, work):
     v = C.Verdict("C19", tier, work)
     rng = C.tier_rng(tier, 19)
@@ -161,6 +247,9 @@ def run(tier, work):
             files = C.job_files_for_replay({"cfg": job["cfg"], "files": job["files"], "args": ["t.rb"]})
             files["other-order/CONFIG"] = ref_job["cfg"]
             v.fail(key, "configuration %s: file order %s and %s give different output: %r" % (name, ref_order, order, diff), files)
+    # spec/MCConfigSets.tla: every small configuration (P, C extends P; 2-3 files; the child possibly split, its extends in any
+    # of its files) under every file order; relational (same output) and against the order-free reference resolution
+    compared += config_sets(v, work, stats, rng, tier)
     # the shipped configuration under random renamings, against corpus programs
     progs = P.corpus(rng, 25 if tier == "quick" else 150)
     nperm = 6 if tier == "quick" else 30
@@ -197,7 +286,9 @@ def run(tier, work):
     cov = {"states": stats["states"], "transitions": stats["transitions"], "traces_validated_against_impl": compared,
            "abstract_configurations": len(sets), "as_is_predictions": predicted, "shipped_config_permutations": nperm,
            "corpus_programs": len(progs),
-           "rule": "8 abstract configurations (parent/child, overloads, split classes, two parents) x every file order; "
+           "rule": "8 abstract configurations (parent/child, overloads, split classes, two parents) x every file order; every MCConfigSets "
+                   "configuration (P, C extends P in 2-3 files, child possibly split, extends in any of its files) x every file order, "
+                   "compared across orders and with the order-free reference resolution; "
                    "shipped configuration x random file renamings x corpus programs"}
     return v.finish("model_checking", cov, assumptions=["file order = lexicographic order of file names (filepath.Glob)"])
 
